@@ -11,7 +11,7 @@ RULE = ("for generated valid free-form programs (laid out with continuations/com
 ASSUMPTIONS = ["garbage strings are checked (by the harness) to be rejected as a lone statement inside a program"]
 TIE_MODULES = ["FparserModel.Block", "FparserModel.Reader"]
 
-GARBAGE = ["@@ bad @@", "x = = 1", "%% 42 :: ::", "1 + + )("]
+GARBAGE = ["@@ bad @@", "x = = 1", "%% 42 :: ::", "1 + + )(", "this isn't fortran", 'say "hi ) (']
 _AT = re.compile(r"at line (\d+)\n>>>(.*)\n")
 
 
